@@ -97,6 +97,29 @@ theorem rowLine_facts (ws : List Nat) (row : List Str) (h : GoodRow ws row) :
   · rw [hhead]; exact hs.2.hash
   · rw [hhead]; exact hs.2.under
 
+/-- a written value line does not start with `data_` or `loop_` -/
+theorem rowLine_prefix_facts (ws : List Nat) (row : List Str) (h : GoodRow ws row) :
+    sData.isPrefixOf (rowLine ws (row.map escape)) = false ∧ sLoop.isPrefixOf (rowLine ws (row.map escape)) = false := by
+  have hlen' : ws.length = (row.map escape).length := by simp [h.len]
+  have hne' : row.map escape ≠ [] := by simpa using h.ne
+  have hm := padsOf_map_fst ws (row.map escape) hlen'
+  have hrel := rowRel_escape row _ hm h.simple
+  have hL : rowLine ws (row.map escape) = padded (padsOf ws (row.map escape)) :=
+    rowLine_padded row ws _ hlen' hrel hne' h.wide
+  obtain ⟨v, vs, rfl⟩ : ∃ v vs, row = v :: vs := by
+    cases row with
+    | nil => exact absurd rfl h.ne
+    | cons v vs => exact ⟨v, vs, rfl⟩
+  obtain ⟨w, ws', rfl⟩ : ∃ w ws', ws = w :: ws' := by
+    cases ws with
+    | nil => simp at hlen'
+    | cons w ws' => exact ⟨w, ws', rfl⟩
+  have hv := h.simple v (by simp)
+  have hs := escape_tok v hv.1 hv.2
+  rw [hL]
+  simp only [List.map_cons, padsOf]
+  exact ⟨padded_not_prefix sData (by decide) _ _ _ hs.2.data, padded_not_prefix sLoop (by decide) _ _ _ hs.2.loop⟩
+
 theorem takeWhile_append_all {α : Type} (p : α → Bool) (A B : List α) (hA : ∀ a ∈ A, p a = true)
     (hB : ∀ b ∈ B, p b = false) : (A ++ B).takeWhile p = A := by
   induction A with
@@ -144,7 +167,8 @@ theorem table_looped (name : Str) (cols : List (Str × List Str)) (r : Nat)
     (hname : NameOk name) (hkeys : ∀ kv ∈ cols, NameOk kv.1) (hnodup : (cols.map (·.1)).Nodup)
     (hcols : cols ≠ []) (hr : 2 ≤ r) (hrect : ∀ kv ∈ cols, kv.2.length = r)
     (hvals : ∀ kv ∈ cols, ∀ v ∈ kv.2, SingleLine v ∧ ¬ BothQuotes v) :
-    ∃ text, categorySerialize name cols = .ok text ∧ categoryDeserialize text = .ok (name, cols) := by
+    ∃ W, categorySerialize name cols = .ok (unlines W) ∧ CatLines name W ∧
+      categoryDeserialize (unlines W) = .ok (name, cols) := by
   -- notation
   let M := cols.map (·.2)
   let keys := cols.map (·.1)
@@ -203,7 +227,7 @@ theorem table_looped (name : Str) (cols : List (Str × List Str)) (r : Nat)
     simp only [categorySerialize, hany, Bool.false_eq_true, if_false, hr0, hr1]
     rw [h0, serializeLooped_eq]
     simp only [keyToks, keys, R, lineOf, ws, M, List.map_map, Function.comp_def, List.cons_append]
-  refine ⟨_, hser, ?_⟩
+  refine ⟨sLoop :: (keyToks.map (· ++ [' '])) ++ R.map lineOf, hser, ?_⟩
   -- facts about the lines
   have hfacts := fun row (hrow : row ∈ R) => rowLine_facts ws row (hgood row hrow)
   have hkeyOk : ∀ key ∈ keys, NameOk key := by
@@ -257,6 +281,44 @@ theorem table_looped (name : Str) (cols : List (Str × List Str)) (r : Nat)
       rw [h1]
       simp only [Bool.or_eq_false_iff]
       exact ⟨by simpa using h3, by simpa using h5⟩
+  have hcl : CatLines name W := by
+    obtain ⟨kv0, rest, hcols'⟩ := List.exists_cons_of_ne_nil hcols
+    have hkt : keyToks = keyTok name kv0.1 :: (rest.map (·.1)).map (keyTok name) := by
+      simp [keyToks, keys, hcols']
+    have hkeyline : ∀ t ∈ keyToks.map (· ++ [' ']), isLoopStart t = false ∧ parseCategoryName t = some name ∧
+        parseDataBlockName t = none := by
+      intro t ht
+      simp only [keyToks, List.mem_map] at ht
+      obtain ⟨_, ⟨key, _, rfl⟩, rfl⟩ := ht
+      refine ⟨by simp [isLoopStart, sLoop, keyTok, List.isPrefixOf], parseCategoryName_keyTok_app name key _ hname, ?_⟩
+      simp [parseDataBlockName, sData, keyTok, List.isPrefixOf]
+    have hdataline : ∀ t ∈ R.map lineOf, isLoopStart t = false ∧ parseCategoryName t = none ∧
+        parseDataBlockName t = none := by
+      intro t ht
+      simp only [List.mem_map] at ht
+      obtain ⟨row, hrow, rfl⟩ := ht
+      have hp := rowLine_prefix_facts ws row (hgood row hrow)
+      have hu := (hfacts row hrow).2.2.2.2.2.1
+      have hp1 : sData.isPrefixOf (lineOf row) = false := hp.1
+      refine ⟨hp.2, ?_, by simp only [parseDataBlockName, hp1]; rfl⟩
+      have : ((lineOf row).head? == some '_') = false := by simpa using hu
+      simp only [parseCategoryName, this]; rfl
+    refine ⟨hWnl, hWne, ?_, ?_, ?_⟩
+    · intro w hw
+      simp only [W, List.cons_append, List.mem_cons, List.mem_append] at hw
+      rcases hw with rfl | hw | hw
+      · decide
+      · exact (hkeyline w hw).2.2
+      · exact (hdataline w hw).2.2
+    · refine ⟨sLoop, keyToks.map (· ++ [' ']) ++ R.map lineOf, rfl, Or.inl ⟨by decide, ?_⟩⟩
+      rw [hkt]
+      refine ⟨keyTok name kv0.1 ++ [' '], _, rfl, by simp, parseCategoryName_keyTok_app name kv0.1 _ hname⟩
+    · intro w hw
+      simp only [W, List.cons_append, List.tail_cons, List.mem_append] at hw
+      rcases hw with hw | hw
+      · exact ⟨(hkeyline w hw).1, Or.inr (hkeyline w hw).2.1⟩
+      · exact ⟨(hdataline w hw).1, Or.inl (hdataline w hw).2.1⟩
+  refine ⟨hcl, ?_⟩
   have hlines := read_lines W hWnl hWne
   rw [hWstrip] at hlines
   -- run the reader
